@@ -166,6 +166,12 @@ pub fn render_doc(d: &SDoc, acc: &mut Acc) {
             if refmodel::text::strip_insignificant_ws(&p) != c {
                 acc.vio("scale:pretty:differs-from-compact-beyond-whitespace", || json!({"doc": d.name}));
             }
+            // two-space indentation, one member per line, at every depth and size
+            if let Some(t) = crate::checks::c03::tokens(&c) {
+                if crate::checks::c03::collapse_empty(&p) != crate::checks::c03::pretty_from_tokens(&t) {
+                    acc.vio("scale:pretty:layout-not-two-space-one-member-per-line", || json!({"doc": d.name}));
+                }
+            }
         }
     }
 }
